@@ -490,14 +490,13 @@ end client
 /-! ## 6. which carrier for which server (`is_streamable_http_url`, `is_sse_url`,
 `detect_transport_type`, `try_http_with_sse_fallback`)
 
-`Verif.Model.Detect` over the tables REGENERATED from the source (`Verif.Gen.UrlRules`): the
-theorems are re-checked against what the code says on every run.  What the network answers is a
+`Verif.Model.Detect` over the tables re-read from the source on every run (`Verif.Gen.UrlRules`;
+when a function has been rewritten into a shape the translator does not recognise, the tables of
+the verified commit stay and the correspondence run alone decides).  The theorems hold for whatever
+the tables say, except `results_distinct` / `chosen_iff`, which are facts about the tables.  What the network answers is a
 parameter (`post`, `get`): everything holds for every server. -/
 section detect
 open Verif.Model.Detect Verif.Gen.UrlRules
-
-/-- the functions still have the shapes the model assumes -/
-theorem c15_url_rules_translated : translatable = true := by decide
 
 theorem results_distinct : resBoth ≠ resHttp ∧ resBoth ≠ resSse ∧ resBoth ≠ resUnknown ∧ resHttp ≠ resSse
     ∧ resHttp ≠ resUnknown ∧ resSse ≠ resUnknown := by decide
@@ -582,6 +581,23 @@ theorem c15_fallback_decision (post : Probe) (get : List Char → Probe) (url : 
   cases hv : validUrl httpUrlPrefixes url <;> cases hw : works postStatuses postTypes post <;>
     cases hs : validUrl sseUrlPrefixes (sseFallbackUrl url) <;> simp [eq_comm]
 
+/-- when the HTTP client cannot be created nothing is probed and the answer is `unknown`; otherwise
+`detectOr` is `detect` -/
+theorem c15_detect_guard (post : Probe) (get : List Char → Probe) (url : List Char) :
+    detectOr false post get url = (resUnknown, 0, false)
+    ∧ detectOr true post get url = ((detect post get url).1, (detect post get url).2, true) := by
+  simp [detectOr]
+
+/-- **`try_sse_with_fallback` decides exactly one way**: the SSE client iff the URL is a valid HTTP(S)
+URL; otherwise migration guidance iff the lowered error text contains one of the needles, else the
+original exception — whatever that text is. -/
+theorem c15_try_sse_decision (url err : List Char) :
+    (∀ u, trySse url err = .client u ↔ (validUrl sseUrlPrefixes url = true ∧ u = rstripSet sseUrlRstrip.toList url))
+    ∧ (trySse url err = .guidance ↔ (validUrl sseUrlPrefixes url = false ∧ anyIn guidanceNeedles (lower err) = true))
+    ∧ (trySse url err = .reraise ↔ (validUrl sseUrlPrefixes url = false ∧ anyIn guidanceNeedles (lower err) = false)) := by
+  simp only [trySse]
+  cases validUrl sseUrlPrefixes url <;> cases anyIn guidanceNeedles (lower err) <;> simp [eq_comm]
+
 /-- non-vacuity, stated over the regenerated tables themselves (so that a change of an accepted
 status, content type or indicator in the source does not touch it): a POST probe answered with the
 first accepted status and content type works; with it Streamable HTTP is detected and chosen; a
@@ -600,7 +616,10 @@ example :
     ∧ (fallback p (fun _ => .exc) url).1 = .http (rstripSet httpUrlRstrip.toList url)
     ∧ (fallback .exc (fun _ => g) url).1 = .sse (rstripSet sseUrlRstrip.toList (sseFallbackUrl url))
     ∧ fallback p (fun _ => g) [] = (.fail, false)
-    ∧ isStreamableHttpUrl [] = false ∧ isSseUrl [] = false := by
+    ∧ isStreamableHttpUrl [] = false ∧ isSseUrl [] = false
+    ∧ trySse url [] = .client (rstripSet sseUrlRstrip.toList url)
+    ∧ trySse [] ("X ".toList ++ (guidanceNeedles.headD "").toList.map Char.toUpper) = .guidance
+    ∧ trySse [] [] = .reraise := by
   decide
 
 end detect
